@@ -185,14 +185,18 @@ class Alg:
                 r = ("ITE", c, a, b)
         elif k in ("vmap", "refs", "vals", "array", "repeat") and self.is_vector(t):
             r = self.vec(t)
-        elif k in ("box", "refv"):
-            r = self.canon(t[1])
+        elif k in ("box", "refv", "deref", "copied"):
+            r = self.canon(t[1])        # values, not addresses: references, boxes and copies are transparent
         elif k == "conv" and t[2] in ("G2Prepared", "G1Projective", "G2Projective", "G1Affine", "G2Affine"):
             r = self.canon(t[1])
         elif k == "at":
             v = self.canon(t[1])
             i = self.canon(t[2])
-            if v[0] == "V":
+            while v[0] == "upd_idx" and i[0] == "int" and v[2][0] == "int" and v[2] != i:
+                v = v[1]                  # read over a write at another constant index
+            if v[0] == "upd_idx" and v[2] == i:
+                r = v[3]
+            elif v[0] == "V":
                 r = self.v_at(v, i)
             elif v[0] == "array" and i[0] == "int" and 0 <= i[1] < len(v[1]):
                 r = v[1][i[1]]
@@ -202,6 +206,16 @@ class Alg:
                 r = ("E", v)
             else:
                 r = ("at", v, i)
+        elif k == "upd_idx":
+            v = self.canon(t[1])
+            i = self.canon(t[2])
+            e = self.canon(t[3])
+            if v[0] == "V" and isinstance(v[2], int) and v[2] <= 8 and i[0] == "int":
+                v = ("array", tuple(self.v_at(v, ("int", j)) for j in range(v[2])))
+            if v[0] == "array" and i[0] == "int" and 0 <= i[1] < len(v[1]):
+                r = ("array", v[1][:i[1]] + (e,) + v[1][i[1] + 1:])
+            else:
+                r = ("upd_idx", v, i, e)
         elif k == "field":
             if t[1][0] in ("upd", "struct", "tuple", "ite", "closure"):
                 v = self.eng.proj_field(t[1], t[2])
